@@ -194,13 +194,16 @@ class Table:
         self.def_order = []     # (kind, name, digest) in text order, duplicates included
         self.scopes = []        # [scope id, [names]]
         self.insts = []         # (module, inst name, modname)
+        self.kinds = {}         # (scope id, name) -> [kind of each declaration]  (diagnosis only)
         self._scope_ix = {}
 
-    def declare(self, scope, name):
+    def declare(self, scope, name, kind="var"):
+        """kind: port | var | inst | block | loopvar | field | module | typedef"""
         if scope not in self._scope_ix:
             self._scope_ix[scope] = len(self.scopes)
             self.scopes.append([scope, []])
         self.scopes[self._scope_ix[scope]][1].append(name)
+        self.kinds.setdefault((scope, name), []).append(kind)
 
     def as_json(self):
         return {"def_order": [list(x) for x in self.def_order],
@@ -283,11 +286,11 @@ def _parse_typedef(cur, tab):
     dg = digest_tokens(toks)
     fields = tmp.scopes[0][1] if tmp.scopes else []
     tab.def_order.append(("typedef", name, dg))
-    tab.declare("$unit", name)
+    tab.declare("$unit", name, "typedef")
     n = sum(1 for k, nm, _ in tab.def_order if k == "typedef" and nm == name)
     scope = "T:%s" % name if n == 1 else "T:%s#%d" % (name, n)
     for f in fields:
-        tab.declare(scope, f)
+        tab.declare(scope, f, "field")
     if name not in tab.typedefs:
         tab.typedefs[name] = {"digest": dg, "fields": fields, "uses": sorted(set(uses))}
 
@@ -297,7 +300,7 @@ def _parse_block(cur, tab, scope, typedef_names, counter):
     if cur.peek() == ":":
         cur.next()
         label = cur.next()
-        tab.declare(scope, label)
+        tab.declare(scope, label, "block")
         inner = scope + "/" + label
     else:
         counter[0] += 1
@@ -343,7 +346,7 @@ def _parse_stmt(cur, tab, scope, typedef_names, counter):
             while cur.peek() in _QUALS or cur.peek() in _BUILTIN_TYPES:
                 cur.next()
             cur.skip_dims()
-            tab.declare(fs, cur.next())
+            tab.declare(fs, cur.next(), "loopvar")
         cur.skip_balanced("(", ")")
         _parse_stmt(cur, tab, fs, typedef_names, counter)
     elif v in ("case", "casez", "casex"):
@@ -450,7 +453,7 @@ def _parse_module(cur, tab):
                 raise ParseError("port without a name in module %s near %r" %
                                  (name, cur.ctx(6, 3)))
             p = cur.raw_until((",", ")", "[", "="))
-            tab.declare(scope, p)
+            tab.declare(scope, p, "port")
             ports.append(p)
             cur.skip_dims()
         cur.expect(")")
@@ -526,7 +529,7 @@ def _parse_module(cur, tab):
                     raise ParseError("parameterised instantiation in %s is outside the subset" % name)
                 iname = cur.t[k - 1][1]
                 cur.i = j + 1
-                tab.declare(scope, iname)
+                tab.declare(scope, iname, "inst")
                 insts.append([iname, modname])
                 tab.insts.append((name, iname, modname))
             elif cur.kind(1) == "id" or cur.peek(1) == "[":
@@ -540,7 +543,7 @@ def _parse_module(cur, tab):
     toks = cur.t[start:cur.i]
     dg = digest_tokens(toks)
     tab.def_order.append(("module", name, dg))
-    tab.declare("$defs", name)
+    tab.declare("$defs", name, "module")
     # typedef names referenced anywhere in the module text (ports, declarations, casts)
     body_ids = {t[1] for t in toks if t[0] == "id"}
     uses = sorted((set(uses) | (body_ids & tdn)))
